@@ -2,6 +2,7 @@ package main
 
 import (
 	"fmt"
+	"go/token"
 	"sort"
 	"strings"
 
@@ -91,45 +92,31 @@ func codecRule(c *Ctx, rule string) {
 					s.off = offsetOf(call, sl.Low)
 				}
 				// how is the array used?
-				allInstrs(fn, func(j ssa.Instruction) {
-					jc, ok := j.(*ssa.Call)
-					if !ok {
-						return
-					}
-					if b, ok := jc.Call.Value.(*ssa.Builtin); ok && b.Name() == "append" && len(jc.Call.Args) == 2 {
-						if isGlobalLoad(peel(jc.Call.Args[0]), c.a.KeyValue) && sliceArray(jc.Call.Args[1]) == arr && arr != nil {
-							s.kind = "value"
-							s.off += prefixLen
-						}
-					}
-					if calleeName(&jc.Call) == boltPut {
-						if sliceArray(jc.Call.Args[2]) == arr && arr != nil && keyKind(c, jc.Call.Args[1]) == "rows" {
-							s.kind = "rows"
-						}
-						if sliceArray(jc.Call.Args[1]) == arr && arr != nil {
-							s.kind = "temp"
-						}
-					}
-				})
+				kind, shift := arrayRecord(c, fn, arr, prefixLen, 0)
+				s.kind = kind
+				s.off += shift
 			case strings.HasPrefix(m, "AppendUint"):
 				s.put = true
-				buf := args[len(args)-2]
-				switch {
-				case prefixedEmpty(c, buf):
-					s.kind = "value"
-					s.off = prefixLen
-				case emptyBytes(buf):
-					// an encoding of its own: which record is it stored as?
-					switch arg, kk := flowsToPut(c, call, 0); {
-					case arg == 2 && kk == "rows":
-						s.kind = "rows"
-					case arg == 1:
-						s.kind = "temp"
-					default:
-						return
-					}
-				default:
+				// The bytes already in the base slice give the offset: an empty slice, the bitmap-key prefix appended to an
+				// empty slice, or either of them extended by earlier AppendUintNN calls (a chain builds a multi-field key).
+				off, prefixed, ok := appendBase(c, args[len(args)-2], prefixLen, 0)
+				if !ok {
 					return // appends to other byte strings (e.g. hashing input of cache keys) are not on-disk records
+				}
+				s.off = off
+				if prefixed {
+					s.kind = "value"
+					break
+				}
+				// an encoding of its own: which record is the finished byte string (this append, or a later link of the
+				// chain it is the base of) stored as? Also when the chain lives in a helper and the caller does the Put.
+				switch arg, kk := flowsToPut(c, call, 0); {
+				case arg == 2 && kk == "rows":
+					s.kind = "rows"
+				case arg == 1:
+					s.kind = "temp"
+				default:
+					return
 				}
 			case strings.HasPrefix(m, "Uint"):
 				x := args[len(args)-1]
@@ -225,6 +212,121 @@ func isCursorKey(v ssa.Value) bool {
 		return false
 	}
 	return visit(v)
+}
+
+// arrayRecord: as which record are the bytes of the local array arr (of fn) stored? `append(keyPrefixValue, arr[:]...)`
+// makes it a bitmap key (the fields then sit behind the prefix: shift), a Put of arr[:] under the row-counter key the
+// row counter, a Put with arr[:] as the key a temp key. An array that an encoding helper returns by value
+// (`return key` with `key [12]byte`) is followed into the callers' variable that receives the result.
+func arrayRecord(c *Ctx, fn *ssa.Function, arr ssa.Value, prefixLen int64, depth int) (kind string, shift int64) {
+	if arr == nil || depth > 2 {
+		return "", 0
+	}
+	allInstrs(fn, func(j ssa.Instruction) {
+		jc, ok := j.(*ssa.Call)
+		if !ok {
+			return
+		}
+		if b, ok := jc.Call.Value.(*ssa.Builtin); ok && b.Name() == "append" && len(jc.Call.Args) == 2 {
+			if isGlobalLoad(peel(jc.Call.Args[0]), c.a.KeyValue) && sliceArray(jc.Call.Args[1]) == arr {
+				kind, shift = "value", prefixLen
+			}
+		}
+		if calleeName(&jc.Call) == boltPut {
+			if sliceArray(jc.Call.Args[2]) == arr && keyKind(c, jc.Call.Args[1]) == "rows" {
+				kind, shift = "rows", 0
+			}
+			if sliceArray(jc.Call.Args[1]) == arr {
+				kind, shift = "temp", 0
+			}
+		}
+	})
+	if kind != "" {
+		return kind, shift
+	}
+	// returned by value: `t = *arr; return t` -> in each caller `*cell = call`
+	al, isAlloc := arr.(*ssa.Alloc)
+	if !isAlloc {
+		return "", 0
+	}
+	for _, r := range referrers(al) {
+		ld, ok := r.(*ssa.UnOp)
+		if !ok || ld.Op != token.MUL {
+			continue
+		}
+		for _, rr := range referrers(ld) {
+			ret, ok := rr.(*ssa.Return)
+			if !ok {
+				continue
+			}
+			for idx, rv := range ret.Results {
+				if rv != ssa.Value(ld) {
+					continue
+				}
+				for _, g := range c.w.ModFuncs {
+					allInstrs(g, func(j ssa.Instruction) {
+						call, ok := j.(*ssa.Call)
+						if !ok || calleeFunc(&call.Call) != fn || kind != "" {
+							return
+						}
+						res := resultValue(call, idx)
+						if res == nil {
+							return
+						}
+						for _, u := range referrers(res) {
+							if st, ok := u.(*ssa.Store); ok && st.Val == res {
+								if k, sh := arrayRecord(c, g, st.Addr, prefixLen, depth+1); k != "" {
+									kind, shift = k, sh
+								}
+							}
+						}
+					})
+				}
+			}
+		}
+	}
+	return kind, shift
+}
+
+// appendBase: the number of bytes the base slice of an AppendUintNN call already holds, and whether they start with the
+// bitmap-key prefix. Recognised bases: an empty slice (0), append(empty, keyPrefixValue...) (the prefix length), and
+// AppendUintNN(base', …) (width of base' plus NN/8). ok is false for any other byte string.
+func appendBase(c *Ctx, base ssa.Value, prefixLen int64, depth int) (off int64, prefixed, ok bool) {
+	if depth > 8 {
+		return 0, false, false
+	}
+	base = peel(base)
+	switch {
+	case emptyBytes(base):
+		return 0, false, true
+	case prefixedEmpty(c, base):
+		return prefixLen, true, true
+	}
+	if call, isCall := base.(*ssa.Call); isCall {
+		if w := appendUintWidth(&call.Call); w > 0 {
+			args := call.Call.Args
+			o, p, ok := appendBase(c, args[len(args)-2], prefixLen, depth+1)
+			return o + int64(w/8), p, ok
+		}
+	}
+	return 0, false, false
+}
+
+// appendUintWidth: NN if cc is a call of encoding/binary's AppendUintNN (any byte order), else 0.
+func appendUintWidth(cc *ssa.CallCommon) int {
+	name := calleeName(cc)
+	if !strings.HasPrefix(name, "(encoding/binary.") {
+		return 0
+	}
+	switch m := name[strings.LastIndex(name, ".")+1:]; m {
+	case "AppendUint16":
+		return 16
+	case "AppendUint32":
+		return 32
+	case "AppendUint64":
+		return 64
+	}
+	return 0
 }
 
 func uniqSorted(in []string) []string {
@@ -331,6 +433,14 @@ func flowsToPut(c *Ctx, v ssa.Value, depth int) (int, string) {
 					}
 					if x.Call.Args[1] == v {
 						return 1, ""
+					}
+				}
+				// v is the base of a further append (next link of an AppendUintNN chain, or plain append(v, …)): its bytes
+				// are the head of the result
+				if b, isB := x.Call.Value.(*ssa.Builtin); (isB && b.Name() == "append" && x.Call.Args[0] == v) ||
+					(appendUintWidth(&x.Call) > 0 && x.Call.Args[len(x.Call.Args)-2] == v) {
+					if a, k := visit(x, depth); a != 0 {
+						return a, k
 					}
 				}
 			case *ssa.Phi:
